@@ -162,16 +162,103 @@ impl Prop for Stress {
     }
 }
 
+/// Several threads insert (singly and in batches) into one `SharedCache` that
+/// is far larger than everything inserted, with TTLs far beyond the run: at
+/// quiescence every record inserted must be there (nothing may be dropped
+/// because another thread happened to hold the cache).
+pub struct NothingLost;
+
+impl Prop for NothingLost {
+    type Case = StressCase;
+    fn name(&self) -> &'static str {
+        "nothing-lost"
+    }
+    fn tape_len(&self) -> usize {
+        16
+    }
+    fn cases(&self, tier: Tier) -> u64 {
+        tier.pick(48, 2_000)
+    }
+    fn generate(&self, g: &mut Gen) -> StressCase {
+        let threads = g.range(2, 8) as u8;
+        StressCase { threads, ops_per_thread: g.pick(&[100u16, 400, 1000]), desired_size: 0, seeds: (0..threads).map(|_| g.u32()).collect() }
+    }
+    fn check(&self, c: &StressCase) -> Outcome {
+        verif::set_virtual_nanos(None);
+        let cache = SharedCache::with_desired_size(1_000_000);
+        let inserted: std::sync::Mutex<BTreeSet<(DomainName, RecordTypeWithData)>> = Default::default();
+        std::thread::scope(|s| {
+            for t in 0..c.threads as usize {
+                let cache = cache.clone();
+                let seed = c.seeds.get(t).copied().unwrap_or(1);
+                let n = c.ops_per_thread;
+                let inserted = &inserted;
+                s.spawn(move || {
+                    let mut x = u64::from(seed) | 1;
+                    let mut mine = BTreeSet::new();
+                    for _ in 0..n {
+                        x = crate::gen::splitmix64(x);
+                        let rr = |y: u64| ResourceRecord {
+                            name: name_of((y >> 8) as u8 % 4),
+                            rtype_with_data: data_of((y >> 16) as u8 % 4, (y >> 24) as u8),
+                            rclass: RecordClass::IN,
+                            ttl: 100_000,
+                        };
+                        match x % 4 {
+                            0 => {
+                                let r = rr(x);
+                                mine.insert((r.name.clone(), r.rtype_with_data.clone()));
+                                cache.insert(&r);
+                            }
+                            1 | 2 => {
+                                // a batch, as the resolvers cache a reply
+                                let k = 1 + (x >> 32) as usize % 60;
+                                let mut y = x;
+                                let batch: Vec<ResourceRecord> = (0..k)
+                                    .map(|_| {
+                                        y = crate::gen::splitmix64(y);
+                                        rr(y)
+                                    })
+                                    .collect();
+                                for r in &batch {
+                                    mine.insert((r.name.clone(), r.rtype_with_data.clone()));
+                                }
+                                cache.insert_all(&batch);
+                            }
+                            _ => {
+                                let _ = cache.get(&name_of((x >> 8) as u8 % 4), QueryType::Wildcard);
+                            }
+                        }
+                    }
+                    inserted.lock().unwrap().extend(mine);
+                });
+            }
+        });
+        let want = inserted.into_inner().unwrap();
+        let snap = cache.verif_snapshot();
+        let have: BTreeSet<(DomainName, RecordTypeWithData)> = snap.entries.iter().map(|e| (e.0.clone(), e.2.clone())).collect();
+        let out = Outcome::pass(true).class(format!("threads:{}", c.threads)).count("records-inserted", want.len() as u64);
+        if let Some(lost) = want.iter().find(|r| !have.contains(*r)) {
+            let n = want.iter().filter(|r| !have.contains(*r)).count();
+            return out.fail("insert-lost-under-contention", format!("{n} of {} inserted records are not in the cache (size 1,000,000, TTL 100,000 s), e.g. {:?}", want.len(), lost));
+        }
+        if have.len() != want.len() || snap.current_size != have.len() {
+            return out.fail("size-accounting", format!("{} records inserted, {} stored, current_size {}", want.len(), have.len(), snap.current_size));
+        }
+        out
+    }
+}
+
 pub fn def() -> PropertyDef {
     PropertyDef {
         id: "C15",
         level: "exploration",
-        rule: "histories: 1..80 operations (insert, re-insert with new TTL into names holding other types, typed/ANY/unchecked lookups, prune, clock advance) over 4 names x 4 types x 3 values on the virtual clock (time advances >= 1 ns between operations, so use order is strict), cache sizes 1..12. A sequential model with LRU stamps judges every prune: reported (overflow, size, expired, evicted) equal the model's; no record with expiry <= now remains; size <= desired; whole names only; an evicted name was not definitely used later than a surviving one (definite use = insert or lookup returning a record; empty lookups count as possible uses); eviction only while over size. After every operation: current_size = number of distinct (name,type,data) = sum of per-name sizes, both queues hold exactly the live names with the stored priorities, next_expiry = earliest expiry of the name (documented invariants in cache.rs). stress: 2..8 OS threads x 200..2000 operations on one SharedCache, the same structural invariants at quiescence. Non-trivial = a prune that both expires and evicts, or a re-insert into a multi-type name followed by a prune (histories); every stress run. Distinct by hash of the case.",
+        rule: "histories: 1..80 operations (insert, re-insert with new TTL into names holding other types, typed/ANY/unchecked lookups, prune, clock advance) over 4 names x 4 types x 3 values on the virtual clock (time advances >= 1 ns between operations, so use order is strict), cache sizes 1..12. A sequential model with LRU stamps judges every prune: reported (overflow, size, expired, evicted) equal the model's; no record with expiry <= now remains; size <= desired; whole names only; an evicted name was not definitely used later than a surviving one (definite use = insert or lookup returning a record; empty lookups count as possible uses); eviction only while over size. After every operation: current_size = number of distinct (name,type,data) = sum of per-name sizes, both queues hold exactly the live names with the stored priorities, next_expiry = earliest expiry of the name (documented invariants in cache.rs). stress: 2..8 OS threads x 200..2000 operations on one SharedCache, the same structural invariants at quiescence. nothing-lost: 2..8 threads insert single records and batches of 1..60 (insert_all) into a cache of size 1,000,000 with TTL 100,000 s; at quiescence exactly the records inserted are stored. Non-trivial = a prune that both expires and evicts, or a re-insert into a multi-type name followed by a prune (histories); every stress run. Distinct by hash of the case.",
         assumptions: vec![
             "thread schedules are the operating system's, not controlled (DESIGN section 7)",
             "the model adopts the implementation's eviction choice after validating it",
         ],
-        parts: vec![Box::new(Histories), Box::new(Stress)],
+        parts: vec![Box::new(Histories), Box::new(Stress), Box::new(NothingLost)],
         budget_s: |t| t.pick(600, 7200),
         needs_repo_bins: false,
     }
